@@ -66,13 +66,24 @@ def strategy(tier):
         if draw(st.booleans()):
             spec = draw(widen(spec))
         n, m = spec["n"], spec["m"]
+        pattern_varying = m > 0 and draw(st.integers(0, 2)) == 0
+        if pattern_varying:
+            # Jacobian entries J_ij = h_ij * x_j vanish exactly where x_j = 0: the sparsity pattern the
+            # callbacks return changes from point to point while the number of stored entries may not
+            spec = dict(spec)
+            spec["A"] = [[0.0] * n for _ in range(m)]
+            spec["Hc"] = [np.diag([draw(st.sampled_from([-2.0, -0.5, 0.0, 1.0, 3.0])) for _ in range(n)]).tolist() for _ in range(m)]
+            spec.pop("u", None), spec.pop("T", None)
+            spec["shift"] = [0.0] * n
+            spec["family"] = "patternvar:" + spec.get("family", "nlp")
         kind = draw(st.sampled_from(["custom", "custom", "custom", "none", "nominal", "gradjac", "kkt"]))
         if kind == "custom":
+            zv, zc, zo = (draw(st.integers(0, 3)) == 0 for _ in range(3))
             scaling = {
                 "kind": "custom",
-                "vw": draw(st.lists(st.integers(-60, 60), min_size=n, max_size=n)),
-                "cw": draw(st.lists(st.integers(-60, 60), min_size=m, max_size=m)),
-                "ow": draw(st.integers(-20, 20)),
+                "vw": [0] * n if zv else draw(st.lists(st.integers(-60, 60), min_size=n, max_size=n)),
+                "cw": [0] * m if zc else draw(st.lists(st.integers(-60, 60), min_size=m, max_size=m)),
+                "ow": 0 if zo else draw(st.integers(-20, 20)),
             }
         elif kind == "none":
             scaling = {"kind": "none"}
@@ -81,8 +92,12 @@ def strategy(tier):
         r = Ref(spec)
         ns = sum(1 for i in range(m) if r.cl[i] != r.cu[i])
         pts = []
-        for _ in range(draw(st.integers(1, 3))):
-            pts.append({"X": [draw(dyadic()) for _ in range(n + ns)], "Y": [draw(dyadic()) for _ in range(m)]})
+        for _ in range(draw(st.integers(1, 3)) + (2 if pattern_varying else 0)):
+            X = [draw(dyadic()) for _ in range(n + ns)]
+            if pattern_varying:
+                zeros = draw(st.lists(st.booleans(), min_size=n, max_size=n))
+                X = [0.0 if (j < n and zeros[j]) else v for j, v in enumerate(X)]
+            pts.append({"X": X, "Y": [draw(dyadic()) for _ in range(m)]})
         upts = []
         for _ in range(draw(st.integers(1, 2))):
             upts.append({"x": [draw(dyadic(-10, 10)) for _ in range(n)], "y": [draw(dyadic(-10, 10)) for _ in range(m)],
